@@ -28,13 +28,14 @@ structure SProg (ν : Type) where
   inherits : List Nat      -- inherited programs (indices into the graph) in declaration order
   deriving Repr
 
-/-- first success in the given search order; elements are (inherited program, its inherit index) -/
-def firstSome (rec : Nat → Option (List Nat)) : List (Nat × Nat) → Option (List Nat)
-  | [] => none
-  | (q, k) :: rest =>
-    match rec q with
-    | some path => some (k :: path)
-    | none => firstSome rec rest
+/-- search the inherits from the LAST to the first; `k` is the inherit index of the head of the list; the
+    result is the path (inherit indices, outermost first) to the definition -/
+def searchLF (rec : Nat → Option (List Nat)) : Nat → List Nat → Option (List Nat)
+  | _, [] => none
+  | k, q :: rest =>
+    match searchLF rec (k + 1) rest with
+    | some r => some r
+    | none => (rec q).map (k :: ·)
 
 /-- the path (list of inherit indices, outermost first) from program p to the definition a call by name
     reaches: own definition, else the inherits last to first -/
@@ -45,7 +46,7 @@ def resolveFrom {ν : Type} [DecidableEq ν] (g : List (SProg ν)) : Nat → Nat
     | none => none
     | some P =>
       if name ∈ P.defs then some []
-      else firstSome (fun q => resolveFrom g fuel q name) P.inherits.zipIdx.reverse
+      else searchLF (fun q => resolveFrom g fuel q name) 0 P.inherits
 
 def resolve {ν : Type} [DecidableEq ν] (g : List (SProg ν)) (p : Nat) (name : ν) : Option (List Nat) :=
   resolveFrom g (g.length + 1) p name
